@@ -43,17 +43,24 @@ theorem posOf_append (pre mid : Bytes) (h : ∀ c ∈ mid, c ≠ 0x0a) : posOf (
     rw [← List.append_assoc, posOf_snoc, ih hs]
     simp [Pos.step, Pos.adv, hc]; omega
 
-/-- a token's recorded line and column are those of its offset in `s` -/
-def TokOK (s : Bytes) (t : Tok) : Prop := t.off ≤ s.length ∧ (t.line, t.col) = lineCol (s.take t.off)
+/-- a token's recorded line and column are those of its offset in `s`; a text token's value is
+    the source text found there, byte for byte -/
+def TokOK (s : Bytes) (t : Tok) : Prop :=
+  t.off ≤ s.length ∧ (t.line, t.col) = lineCol (s.take t.off) ∧ (t.typ = .html → t.val <+: s.drop t.off)
 
 theorem tokOK_at {s pre rest : Bytes} (h : s = pre ++ rest) (t : Tok)
-    (hl : t.line = (posOf pre).line) (hc : t.col = (posOf pre).col) (ho : t.off = (posOf pre).off) : TokOK s t := by
+    (hl : t.line = (posOf pre).line) (hc : t.col = (posOf pre).col) (ho : t.off = (posOf pre).off)
+    (hv : t.typ = .html → t.val <+: rest) : TokOK s t := by
   subst h
   simp only [posOf] at hl hc ho
-  refine ⟨by simp [ho], ?_⟩
-  rw [ho, List.take_left']
-  · simp [hl, hc]
-  · rfl
+  refine ⟨by simp [ho], ?_, ?_⟩
+  · rw [ho, List.take_left']
+    · simp [hl, hc]
+    · rfl
+  · intro ht
+    rw [ho, List.drop_left']
+    · exact hv ht
+    · rfl
 
 /-! ### strings -/
 
@@ -144,9 +151,9 @@ theorem codeOK_continue {s pre used rest' cur : Bytes} {r : TokzRes} (hcur : cur
 theorem prefix_ok {s pre cur : Bytes} (hs : s = pre ++ cur) : ∃ pre', pre' <+: s ∧ ((posOf pre).line, (posOf pre).col) = lineCol pre' ∧ (posOf pre).off = pre'.length :=
   ⟨pre, by rw [hs]; exact List.prefix_append _ _, rfl, rfl⟩
 
-theorem tok_here {s pre cur : Bytes} (hs : s = pre ++ cur) (typ : TokTyp) (val : Bytes) (tr : Bool) :
+theorem tok_here {s pre cur : Bytes} (hs : s = pre ++ cur) (typ : TokTyp) (val : Bytes) (tr : Bool) (hne : typ ≠ .html) :
     TokOK s ⟨typ, val, (posOf pre).line, (posOf pre).col, tr, (posOf pre).off⟩ :=
-  tokOK_at hs _ rfl rfl rfl
+  tokOK_at hs _ rfl rfl rfl (fun h => absurd h hne)
 
 theorem codeOK_ok {s pre cur : Bytes} {toks : List Tok} {rest : Bytes} {pos : Pos} (h1 : ∀ t ∈ toks, TokOK s t)
     (used : Bytes) (h2 : cur = used ++ rest) (h3 : pos = posOf (pre ++ used)) : CodeOK s pre cur (.ok toks rest pos) :=
@@ -189,7 +196,7 @@ theorem stateCode_pos (T : LexTables) (hT : TagTablesOK T = true) (s : Bytes) :
           simp only [List.length_cons] at *; omega
         · rw [hs, hcur, List.append_assoc]
         · exact hacc'
-      have tokc := fun (typ : TokTyp) (val : Bytes) (tr : Bool) => tok_here (cur := c :: t) hs typ val tr
+      have tokc := fun (typ : TokTyp) (val : Bytes) (tr : Bool) (hne : typ ≠ .html) => tok_here (cur := c :: t) hs typ val tr hne
       rw [stateCode.eq_def]
       simp only []
       by_cases hsp : mem T.space c = true
@@ -215,7 +222,7 @@ theorem stateCode_pos (T : LexTables) (hT : TagTablesOK T = true) (s : Bytes) :
             · exact takeWhile_mem_ne hidd _ x hx
           · intro t' ht'
             rcases List.mem_cons.1 ht' with rfl | h
-            · exact tokc _ _ _
+            · exact tokc _ _ _ (by first | decide | (split <;> decide))
             · exact hacc _ h
         · rw [if_neg hidc]
           by_cases hdg : mem T.digits c = true
@@ -242,7 +249,7 @@ theorem stateCode_pos (T : LexTables) (hT : TagTablesOK T = true) (s : Bytes) :
                   · exact takeWhile_mem_ne hidd _ x hx
                 · intro t' ht'
                   rcases List.mem_cons.1 ht' with rfl | h
-                  · exact tokc _ _ _
+                  · exact tokc _ _ _ (by first | decide | (split <;> decide))
                   · exact hacc _ h
               · rw [if_neg hdd]
                 have := go (c :: t.takeWhile (mem T.digits)) (d :: t0') (⟨.num, c :: t.takeWhile (mem T.digits), (posOf pre).line, (posOf pre).col, false, (posOf pre).off⟩ :: acc) ?_ (by simp) ?_ ?_
@@ -256,13 +263,13 @@ theorem stateCode_pos (T : LexTables) (hT : TagTablesOK T = true) (s : Bytes) :
                   · exact takeWhile_mem_ne hdig _ x hx
                 · intro t' ht'
                   rcases List.mem_cons.1 ht' with rfl | h
-                  · exact tokc _ _ _
+                  · exact tokc _ _ _ (by first | decide | (split <;> decide))
                   · exact hacc _ h
             · rename_i h0
               refine codeOK_ok ?_ (c :: t.takeWhile (mem T.digits)) ?_ ?_
               · intro t' ht'
                 rcases List.mem_cons.1 ht' with rfl | h
-                · exact tokc _ _ _
+                · exact tokc _ _ _ (by first | decide | (split <;> decide))
                 · exact hacc _ h
               · simp only [List.append_nil, List.cons.injEq, true_and]
                 conv => lhs; rw [hsplit, h0]
@@ -295,7 +302,7 @@ theorem stateCode_pos (T : LexTables) (hT : TagTablesOK T = true) (s : Bytes) :
                   · exact hc
                 · intro t' ht'
                   rcases List.mem_cons.1 ht' with rfl | h
-                  · exact tokc _ _ _
+                  · exact tokc _ _ _ (by first | decide | (split <;> decide))
                   · exact hacc _ h
               · exact codeOK_err hs _
             · rw [if_neg hqu]
@@ -315,7 +322,7 @@ theorem stateCode_pos (T : LexTables) (hT : TagTablesOK T = true) (s : Bytes) :
                 have htok : ∀ t' ∈ mkSym sym (posOf pre) :: acc, TokOK s t' := by
                   intro t' ht'
                   rcases List.mem_cons.1 ht' with rfl | h
-                  · unfold mkSym; split <;> exact tokc _ _ _
+                  · unfold mkSym; split <;> exact tokc _ _ _ (by decide)
                   · exact hacc _ h
                 by_cases hend : List.elem sym T.enders = true
                 · rw [if_pos hend]
@@ -394,6 +401,7 @@ theorem flush_inv {s rest : Bytes} {st : RunSt} (h : RunInv s rest st) :
     intro t ht
     rcases List.mem_cons.1 ht with rfl | ht
     · exact tokOK_at (pre := pre) (rest := mid ++ rest) (by rw [hs, List.append_assoc]) _ (by simp [h1]) (by simp [h1]) (by simp [h1])
+        (fun _ => by simp [h3])
     · exact h4 t ht
 
 theorem skip_inv {s pre used rest' : Bytes} {st : RunSt} (hs : s = pre ++ (used ++ rest')) (hst : st.start = posOf pre)
